@@ -400,7 +400,8 @@ def redirect_hashmap(t):
     return t2 + "\n// E7: HashMap resolves to the finite-map shim\nuse crate::model::fmap::HashMap;\n"
 
 
-def l3_texts(real_trace):
+def l3_texts(variant):
+    real_trace = variant == "trace"
     out = {}
     ex = X.whole_file("src/state/execute.rs")
     ex = X.select_methods(ex, lambda n: n in ("step", "execute", "set_max_instructions"),
@@ -419,6 +420,10 @@ def l3_texts(real_trace):
         tr = X.select_items(tr, lambda h: ("struct TraceEntry" in h or "enum TraceVariant" in h or h.strip().startswith("use ")) and "wasm_bindgen" not in h)
     out["helpers/trace.rs"] = ("src/helpers/trace.rs", tr)
     sy = X.whole_file("src/helpers/syscalls.rs")
+    if variant != "sys":
+        # only the state type: the real handler closures have the hook callback type and would otherwise be
+        # candidates of every indirect hook call in the step harness
+        sy = X.select_items(sy, lambda h: ("struct SyscallState" in h or "enum Syscall" in h or (h.strip().startswith("use ") and "rand" not in h and "wasm_bindgen" not in h)))
     sy = re.sub(r"^use rand::Rng;", lambda m: " " * len(m.group(0)), sy, flags=re.M)
     sy = redirect_hashmap(sy) + "// E7: the thread RNG is replaced by nondeterministic choice (C20's stated exception)\nuse crate::model::rand::{self, Rng};\n"
     out["helpers/syscalls.rs"] = ("src/helpers/syscalls.rs", sy)
@@ -433,44 +438,50 @@ def l3_texts(real_trace):
 
 
 L3_HARNESSES = [
-    ("l3_step_b0_a0", "check_step(0, 0)", 10, False),
-    ("l3_step_b1_a1", "check_step(1, 1)", 10, False),
-    ("l3_step_b2_a1", "check_step(2, 1)", 10, False),
-    ("l3_step_b1_a2", "check_step(1, 2)", 10, False),
-    ("l3_step_b3_a3", "check_step(3, 3)", 12, False),
-    ("l3_execute", "check_execute()", 8, False),
+    # (name, call, unwind, crate variant); `which`: 0 = NOP (the hooked mnemonic), 1 = SYSCALL, 2 = ADD, 3 = AAA (unsupported)
+    ("l3_step_b0_a0_nop", "l3::check_step(0, 0, 0)", 9, "step"),
+    ("l3_step_b1_a1_nop", "l3::check_step(1, 1, 0)", 9, "step"),
+    ("l3_step_b2_a1_nop", "l3::check_step(2, 1, 0)", 9, "step"),
+    ("l3_step_b1_a2_nop", "l3::check_step(1, 2, 0)", 9, "step"),
+    ("l3_step_b3_a3_nop", "l3::check_step(3, 3, 0)", 9, "step"),
+    ("l3_step_b1_a1_add", "l3::check_step(1, 1, 2)", 9, "step"),
+    ("l3_step_b1_a1_unsupported", "l3::check_step(1, 1, 3)", 9, "step"),
+    ("l3_after_step_nop", "l3::check_after_step(0)", 9, "step"),
+    ("l3_execute", "l3::check_execute()", 9, "step"),
 ]
 
 
 def plan_l3():
     hs = []
-    for (name, call, unwind, real_trace) in L3_HARNESSES:
-        decl = "#[kani::proof]\n#[kani::unwind(%d)]\nfn %s() {\n    crate::harness::l3::%s\n}\n" % (unwind, name, call)
-        hs.append(dict(name=name, decl=decl, real_trace=real_trace))
+    for (name, call, unwind, variant) in L3_HARNESSES:
+        decl = "#[kani::proof]\n#[kani::unwind(%d)]\nfn %s() {\n    crate::harness::%s\n}\n" % (unwind, name, call)
+        hs.append(dict(name=name, decl=decl, variant=variant))
     return hs
 
 
-def l3_hash(real_trace=False):
-    t, _ = l3_texts(real_trace)
+def l3_hash(variant="step"):
+    t, _ = l3_texts(variant)
     parts = [x for (_r, x) in t.values()]
-    for rel in ["model/errors.rs", "model/debug.rs", "model/verif_hooks.rs", "model/regfile.rs", "model/l3/axecutor.rs", "model/l3/fmap.rs", "model/l3/rand.rs", "harness/l3.rs"]:
+    for rel in ["model/errors.rs", "model/debug.rs", "model/verif_hooks.rs", "model/regfile.rs", "model/l3/axecutor.rs", "model/l3/fmap.rs", "model/l3/rand.rs", "harness/l3.rs", "harness/l3trace.rs", "harness/l3sys.rs"]:
         parts.append(open(os.path.join(KANI, rel)).read())
     parts.append(CRATE_LAYOUT_VERSION)
     return X.sha(*parts)
 
 
-def build_l3(dst, harnesses, real_trace=False):
+def build_l3(dst, harnesses, variant="step"):
+    real_trace = variant == "trace"
     if os.path.exists(dst):
         shutil.rmtree(dst)
     src = os.path.join(dst, "src")
     extracted = {}
-    texts, meta = l3_texts(real_trace)
+    texts, meta = l3_texts(variant)
     for rel_dst, (rel_repo, t) in texts.items():
         write(os.path.join(src, rel_dst), t)
         extracted[rel_dst] = dict(repo=rel_repo, sha256=X.sha(t), lines=t.count("\n") + 1)
     for a, b in [("model/errors.rs", "helpers/errors.rs"), ("model/debug.rs", "helpers/debug.rs"), ("model/verif_hooks.rs", "verif_hooks.rs"),
                  ("model/regfile.rs", "model/regfile.rs"), ("model/l3/axecutor.rs", "axecutor.rs"), ("model/l3/fmap.rs", "model/fmap.rs"),
-                 ("model/l3/rand.rs", "model/rand.rs"), ("harness/l3.rs", "harness/l3.rs")]:
+                 ("model/l3/rand.rs", "model/rand.rs"), ("harness/l3.rs", "harness/l3.rs"), ("harness/l3trace.rs", "harness/l3trace.rs"),
+                 ("harness/l3sys.rs", "harness/l3sys.rs")]:
         copy(os.path.join(KANI, a), os.path.join(src, b))
     write(os.path.join(src, "harness/gen_l3.rs"), "".join(h["decl"] for h in harnesses))
     lib = ["#![allow(warnings)]\n", FORMAT_SHADOW,
@@ -479,11 +490,62 @@ def build_l3(dst, harnesses, real_trace=False):
            "pub mod state { pub mod registers; pub mod hooks; pub mod execute; }\n",
            "pub mod auto { pub mod generated; }\n",
            "pub mod axecutor;\n",
-           "pub mod harness { pub mod l3; #[cfg(kani)] pub mod gen_l3; }\n"]
+           "pub mod harness { #[cfg(ax_l3_step)] pub mod l3; #[cfg(ax_l3_trace)] pub mod l3trace; #[cfg(ax_l3_sys)] pub mod l3sys; #[cfg(kani)] pub mod gen_l3; }\n"]
     write(os.path.join(src, "lib.rs"), "".join(lib))
     write(os.path.join(dst, "Cargo.toml"), CARGO_TOML.format(name="axl3"))
     write(os.path.join(dst, ".cargo/config.toml"), "[net]\noffline = true\n")
-    cfgs = ["ax_verif"] + (["ax_l3_real_trace"] if real_trace else [])
+    cfgs = ["ax_verif", "ax_l3_" + variant] + (["ax_l3_real_trace"] if real_trace else [])
     write(os.path.join(dst, "build.rs"), "fn main() {\n" + "".join("    println!(\"cargo:rustc-cfg=%s\");\n    println!(\"cargo:rustc-check-cfg=cfg(%s)\");\n" % (c, c) for c in cfgs) + "}\n")
     shutil.copyfile(os.path.join(X.REPO, "Cargo.lock"), os.path.join(dst, "Cargo.lock"))
     return extracted, meta
+
+
+# ------------------------------------------------------------------------------------------------ native replay of an L2 harness
+def build_l2_native(dst, h):
+    """The crate of build_l2 for one harness, compiled natively against the `kani` shim crate (replay/kani_shim):
+    `axplay <values.json>` re-runs the harness with the counterexample's values and dumps the case."""
+    build_l2(dst, [h])
+    src = os.path.join(dst, "src")
+    copy(os.path.join(KANI, "harness/l2dump.rs"), os.path.join(src, "harness/l2dump.rs"))
+    lib = open(os.path.join(src, "lib.rs")).read()
+    lib = lib.replace("#[cfg(kani)] pub mod l2;", "pub mod l2; pub mod l2dump;").replace("#[cfg(kani)] pub mod l1;", "")
+    lib = lib.replace(FORMAT_SHADOW, FORMAT_SHADOW + """
+// native replay: a failing obligation is recorded instead of aborting
+#[allow(unused_macros)]
+macro_rules! assert {
+    ($c:expr, $l:literal) => { if !($c) { if $l.starts_with("OBL|") { kani::record_failure($l); } else { panic!($l); } } };
+    ($c:expr, $l:literal, $($a:tt)+) => { if !($c) { panic!($l, $($a)+); } };
+    ($c:expr) => { if !($c) { panic!("assertion failed"); } };
+}
+""")
+    write(os.path.join(src, "lib.rs"), lib)
+    m = re.search(r"run_form_with\((.*)\)\n\}", h["decl"], re.S)
+    args = m.group(1)
+    write(os.path.join(src, "bin/axplay.rs"), "fn main() {\n    axl2::harness::play_main::main_impl();\n}\n")
+    write(os.path.join(src, "harness/play_main.rs"), """use crate::harness::l2::{run_form_with, Expect, Family};
+use crate::harness::mkinstr::{OpClass::*, Shape};
+use iced_x86::Code;
+pub fn main_impl() {
+    let path = std::env::args().nth(1).expect("values file");
+    let txt = std::fs::read_to_string(path).unwrap();
+    // [[b,b,..],[..]] without a JSON dependency
+    let mut vals: Vec<Vec<u8>> = Vec::new();
+    for part in txt.split('[').skip(2) {
+        let inner = part.split(']').next().unwrap();
+        vals.push(inner.split(',').filter(|s| !s.trim().is_empty()).map(|s| s.trim().parse::<u8>().unwrap()).collect());
+    }
+    kani::load(vals.clone());
+    let dump = crate::harness::l2dump::replay_dump(%s);
+    let assume_violated_1 = kani::assume_violated();
+    kani::load(vals);
+    let _ = std::panic::catch_unwind(|| run_form_with(%s));
+    let failed = kani::take_failures();
+    let labels: Vec<String> = failed.iter().map(|l| std::format!("\\"{}\\"", l)).collect();
+    std::println!("{{\\"case\\":{},\\"native_failed_labels\\":[{}],\\"assume_violated\\":{}}}", dump, labels.join(","), assume_violated_1 || kani::assume_violated());
+}
+""" % (args, args))
+    lib = open(os.path.join(src, "lib.rs")).read().replace("pub mod l2dump;", "pub mod l2dump; pub mod play_main;")
+    write(os.path.join(src, "lib.rs"), lib)
+    toml = open(os.path.join(dst, "Cargo.toml")).read()
+    toml = toml.replace("[lints.rust]", "kani = { path = \"%s\" }\n\n[[bin]]\nname = \"axplay\"\npath = \"src/bin/axplay.rs\"\n\n[lints.rust]" % os.path.join(VERIF, "replay/kani_shim"))
+    write(os.path.join(dst, "Cargo.toml"), toml)
